@@ -521,4 +521,19 @@ theorem C01_legacy_F36_witness :
     ∧ initDersCode S0 c X0 = [14, 25 / 4] := by
   decide +kernel
 
+/-- **cache clearing is history-free**: when `clear_transcription_cache()` resets every cached function
+    that `transcribe()` would otherwise reuse, the transcription after a clear consists of the same
+    functions as that of a fresh object with the current data, whatever was cached before (the
+    generated `clearCoversCacheGen` establishes the hypothesis for the current source) -/
+theorem C01_clear_then_fresh {α β : Type} (slots cl : List String) (h : ∀ s ∈ slots, s ∈ cl)
+    (build : α → String → β) (d : α) (cache : Cache β) :
+    transcribeWith slots build d (clearSlots cl cache) = transcribeWith slots build d (fun _ => none) :=
+  clear_then_fresh slots cl h build d cache
+
+/-- non-vacuity, and the hypothesis is needed: a slot that is read but not cleared keeps the function
+    built from the old data (`1`) instead of the current data (`2`) -/
+example : transcribeWith ["a", "b"] (fun (d : Nat) _ => d) 2 (clearSlots ["a", "b"] (fun _ => some 1)) = [2, 2]
+    ∧ transcribeWith ["a", "b"] (fun (d : Nat) _ => d) 2 (clearSlots ["a"] (fun _ => some 1)) = [2, 1] := by
+  decide
+
 end RtcVerif.C01
